@@ -210,21 +210,26 @@ class Reactor:
         """
         # Timing instrumentation for performance analysis
         loop_timer = LoopTimer('async_main_loop', warn_threshold_ms=100)
+        deferred_reload: int = Signal.NONE
 
         while True:
             loop_timer.start()
             try:
-                # Handle signals
-                if self.signal.received:
-                    signaled = self.signal.received
+                # Handle signals (a reload kept back while routes were still queued is served like a new one)
+                if self.signal.received or deferred_reload:
+                    if self.signal.received:
+                        signaled = self.signal.received
 
-                    # Report signal to peers
-                    for key in self._peers:
-                        peer = self._peers[key]
-                        if peer.neighbor.api and peer.neighbor.api['signal']:
-                            peer.reactor.processes.signal(peer.neighbor, self.signal.number)
+                        # Report signal to peers
+                        for key in self._peers:
+                            peer = self._peers[key]
+                            if peer.neighbor.api and peer.neighbor.api['signal']:
+                                peer.reactor.processes.signal(peer.neighbor, self.signal.number)
 
-                    self.signal.rearm()
+                        self.signal.rearm()
+                    else:
+                        signaled = deferred_reload
+                    deferred_reload = Signal.NONE
 
                     # Handle SHUTDOWN
                     if signaled == Signal.SHUTDOWN:
@@ -237,18 +242,20 @@ class Reactor:
                         self.restart()
                         continue
 
-                    # Wait for pending adjribout
+                    # Wait for pending adjribout: the request used to be dropped here. Keep it and
+                    # serve the peers first; it is looked at again on the next iteration
                     if self._pending_adjribout():
-                        continue
+                        if signaled in (Signal.RELOAD, Signal.FULL_RELOAD):
+                            deferred_reload = signaled
 
                     # Handle RELOAD
-                    if signaled == Signal.RELOAD:
+                    elif signaled == Signal.RELOAD:
                         self.reload()
                         self.processes.start(self.configuration.processes, False)
                         continue
 
                     # Handle FULL_RELOAD
-                    if signaled == Signal.FULL_RELOAD:
+                    elif signaled == Signal.FULL_RELOAD:
                         self.reload()
                         self.processes.start(self.configuration.processes, True)
                         continue
@@ -409,7 +416,9 @@ class Reactor:
     # ...
 
     def _pending_adjribout(self) -> bool:
-        for peer in self.active_peers():
+        # only an established session can send what is queued: a peer which is down must not
+        # hold a reload back for ever
+        for peer in self.established_peers():
             rib = self._peers[peer].neighbor.rib
             if rib.outgoing.pending():
                 return True
